@@ -100,6 +100,65 @@ Example C04_jwt_unpinned_refuted :
   /\ jwt_verify true j (PS "https://op") (AlgAsym 1 0) t = None.
 Proof. exact unpinned_refuted. Qed.
 
+(* SLOTS (Model/TokenFmt.v slot / slot_resolve / slot_client, compared by harness/drv_C04.py with what the real
+   endpoints do with every genuine token of this and of another instance in the userinfo slot, as bearer CLIENT
+   CREDENTIAL (client authentication methods bearer_header / bearer_body) and in the class-agnostic lookup):
+   every slot that asks one class handler accepts, of all the provider mints - ID Tokens included, whatever keys
+   the handlers share -, only that class, and resolves it to the session it was minted for. *)
+Theorem C04_slot_class_separation : forall cfg expired s h m nonce rnd sid exp x,
+  slot_handler s = Some h -> slot_resolve cfg expired s (mint cfg m nonce rnd sid exp) = TOk x -> m = MTok h /\ x = Some sid.
+Proof. exact slot_class_separation. Qed.
+Print Assumptions C04_slot_class_separation.
+(* the bearer client credential: only an access token resolves there ... *)
+Theorem C04_bearer_credential_only_access_token : forall cfg expired m nonce rnd sid exp x,
+  slot_resolve cfg expired SBearer (mint cfg m nonce rnd sid exp) = TOk x -> m = MTok KAccess /\ x = Some sid.
+Proof. exact bearer_only_access. Qed.
+Print Assumptions C04_bearer_credential_only_access_token.
+(* ... it authenticates the client of the session it was minted for, nobody else ... *)
+Theorem C04_bearer_credential_authenticates_its_client : forall cfg expired db m nonce rnd sid exp client,
+  slot_client cfg expired db SBearer (mint cfg m nonce rnd sid exp) = Some client ->
+  m = MTok KAccess /\ assoc sid db = Some client.
+Proof. exact bearer_client_is_session_client. Qed.
+Print Assumptions C04_bearer_credential_authenticates_its_client.
+Theorem C04_bearer_access_token_authenticates : forall cfg expired db nonce rnd sid exp,
+  expired exp = false -> slot_client cfg expired db SBearer (mint cfg (MTok KAccess) nonce rnd sid exp) = assoc sid db.
+Proof. exact bearer_access_authenticates. Qed.
+Print Assumptions C04_bearer_access_token_authenticates.
+(* ... and what an adversary can build and the slot accepts is a value the provider minted with an access class *)
+Theorem C04_bearer_credential_unforgeable : forall (K : term -> Prop) (k0 : nat) (minted : pystr -> pystr -> Prop) cfg expired t sid,
+  (forall t, K t -> ~ sub (Key k0) t) ->
+  (forall t0 nonce m, K t0 -> sub (AEnc k0 nonce m) t0 ->
+      exists rnd c sid exp, m = Atom (opaque_plain rnd c sid exp) /\ minted c sid) ->
+  h_access cfg = HOpaque k0 ->
+  derivable K t -> slot_resolve cfg expired SBearer t = TOk (Some sid) ->
+  exists c, class_ok KAccess c = true /\ minted c sid /\ exists t0, K t0 /\ sub t t0.
+Proof. exact bearer_unforgeable. Qed.
+Print Assumptions C04_bearer_credential_unforgeable.
+Theorem C04_bearer_credential_unforgeable_jwt : forall (K : term -> Prop) (k0 : nat) cfg expired t sid,
+  (forall t, K t -> ~ sub (Key k0) t) ->
+  h_access cfg = HJwt k0 ->
+  derivable K t -> slot_resolve cfg expired SBearer t = TOk sid -> exists t0, K t0 /\ sub t t0.
+Proof. exact bearer_unforgeable_jwt. Qed.
+Print Assumptions C04_bearer_credential_unforgeable_jwt.
+(* the class-agnostic lookup resolves every class (that is its purpose at introspection / revocation): a class slot
+   served by it is no class slot - the refuted variant below *)
+Theorem C04_generic_lookup_resolves_every_class : forall cfg expired c nonce rnd sid exp,
+  expired exp = false -> slot_resolve cfg expired SGeneric (mint cfg (MTok c) nonce rnd sid exp) = TOk (Some sid).
+Proof. exact generic_resolves_every_class. Qed.
+Print Assumptions C04_generic_lookup_resolves_every_class.
+Example C04_bearer_by_generic_lookup_refuted :
+  let cfg := mkHconf (HOpaque 0) (HOpaque 0) (HOpaque 0) 50 in
+  let db := [(PS "sid", PS "client_1")] in
+  let nx := fun _ : pystr => false in
+  slot_client cfg nx db SGeneric (mint cfg (MTok KRefresh) (PS "n") (PS "r") (PS "sid") (PS "99")) = Some (PS "client_1") /\
+  slot_client cfg nx db SGeneric (mint cfg (MTok KCode) (PS "n") (PS "r") (PS "sid") (PS "99")) = Some (PS "client_1") /\
+  slot_client cfg nx db SGeneric (mint cfg MIdToken (PS "n") (PS "r") (PS "sid") (PS "99")) = Some (PS "client_1") /\
+  slot_client cfg nx db SBearer (mint cfg (MTok KRefresh) (PS "n") (PS "r") (PS "sid") (PS "99")) = None /\
+  slot_client cfg nx db SBearer (mint cfg (MTok KCode) (PS "n") (PS "r") (PS "sid") (PS "99")) = None /\
+  slot_client cfg nx db SBearer (mint cfg MIdToken (PS "n") (PS "r") (PS "sid") (PS "99")) = None /\
+  slot_client cfg nx db SBearer (mint cfg (MTok KAccess) (PS "n") (PS "r") (PS "sid") (PS "99")) = Some (PS "client_1").
+Proof. exact bearer_by_generic_lookup_refuted. Qed.
+
 (* the framing codec under all of this: every list of every string *)
 Theorem C04_lv_roundtrip : forall l, lv_unpack (lv_pack l) = Ok l.
 Proof. exact lv_roundtrip. Qed.
